@@ -258,6 +258,17 @@ def shard(ctx):
         if t % 5 == 0:
             # a long document so that lines > 10 and columns > 20 are common
             doc = {"k%d" % i: gen.gen_value(rng, 3, SCALARS, gen.KEYS[:8]) for i in range(12)}
+        if isinstance(doc, dict) and t % 3 == 1:
+            # doubles with random bit patterns and 64-bit integers: the reported value must be exactly the document's
+            import math
+            import struct
+            fl = []
+            while len(fl) < 2:
+                f = struct.unpack("<d", struct.pack("<Q", rng.getrandbits(64)))[0]
+                if math.isfinite(f) and f != 0:
+                    fl.append(f)
+            doc = dict(doc)
+            doc["n"] = fl + [rng.randint(-2 ** 63, 2 ** 63 - 1)]
         for sname in ser.STYLES:
             check_doc(ctx, rng, doc, sname)
 
